@@ -170,7 +170,9 @@ int main()
     return vh::caseLoop([](const std::string& id, const std::string& header, const std::vector<std::string>& ops) {
         std::printf("case %s\n", id.c_str());
         std::fflush(stdout);
-        verif_case_watchdog(ops.size(), 4, 50);
+        // wall-clock budget per case; C03_WATCHDOG (seconds) raises it for a confirmation run on a busy machine
+        const char* wd = std::getenv("C03_WATCHDOG");
+        verif_case_watchdog(ops.size(), wd ? (unsigned)std::atoi(wd) : 6, 50);
         std::vector<long long> args;
         {
             std::istringstream is(header);
